@@ -546,7 +546,123 @@ def explore(ctx, cfg: Cfg, want, maxdepth, state_cap=300000, deadline=None):
     return res
 
 
+def pair_cover(k):
+    """A cyclic sequence over range(k) in which every ordered pair (i, j) occurs consecutively exactly once (de Bruijn B(k, 2))."""
+    a = [0] * (2 * k)
+    seq = []
+
+    def db(t, p):
+        if t > 2:
+            if 2 % p == 0:
+                seq.extend(a[1:p + 1])
+        else:
+            a[t] = a[t - p]
+            db(t + 1, p)
+            for j in range(a[t - p] + 1, k):
+                a[t] = j
+                db(t + 1, t)
+    db(1, 1)
+    return seq + seq[:1]
+
+
+def deep_shard(shard):
+    """ONE long path through the state graph of a configuration: the pair-cover sequence of its non-crossing operations
+    (every ordered pair of operations occurs back to back), every oracle evaluated after every step on the live object.
+    What the level-bounded BFS cannot reach: counters, lists and dicts that have grown for hundreds of operations."""
+    cfgargs, want = shard
+    cfg = Cfg(*cfgargs)
+    allowed = set().union(*(FIELDS[w] for w in want))
+    ops = [i for i, op in enumerate(cfg.ops) if op[0] in ("reset", "table", "stats", "view", "has") or (op[2] & 3) + op[1] <= 4]
+    seq = [ops[i] for i in pair_cover(len(ops))]
+    p = Partial()
+    w = World(cfg)
+    hist = []
+    resets = 0
+    for oi in seq:
+        hist.append(oi)
+        checks = []
+        w.apply(cfg.ops[oi], checks)
+        if cfg.ops[oi][0] == "reset":
+            resets += 1
+        if "policy" in want:
+            w.check_policy(checks)
+        if "accounting" in want:
+            w.check_resident(checks)
+        if "coherence" in want:
+            w.check_coherence(checks)
+        p.transitions += 1
+        p.evaluations += 1
+        bad = [(f, d) for f, d in checks if f in allowed]
+        if bad:
+            for f, d in bad[:1]:
+                p.violation(dict(oracle="cache-deep-path", field=f, kind=cfg.kind), dict(kind="cache-deep-path", cfg=list(cfgargs), hist=list(hist), want=list(want)),
+                            f"{cfg.name()}: step {len(hist)} of the pair-cover path, after [... {hist_text(cfg, hist[-4:])}]: {d}", size=(len(hist), ()))
+            break
+    else:
+        if "transparency" in want:
+            checks = []
+            w.check_readback(checks)
+            for f, d in checks[:1]:
+                p.violation(dict(oracle="cache-deep-path", field=f, kind=cfg.kind), dict(kind="cache-deep-path", cfg=list(cfgargs), hist=list(hist), want=list(want)),
+                            f"{cfg.name()}: after the whole pair-cover path ({len(hist)} operations): {d}", size=(len(hist), ()))
+    p.traces += 1
+    p.nontrivial += 1
+    p.counters["deep-path-operations"] += len(hist)
+    if w.ref.accesses > 300 and w.ref.hits > 260:
+        p.counters["deep-path-beyond-256-hits"] += 1
+    for e in w.ref.events:
+        p.counters["cache-" + e] += 1
+    return p
+
+
+def replay_deep(case):
+    """Re-walk the recorded prefix with the oracles after every step; report what the last step shows."""
+    cfg = Cfg(*case["cfg"])
+    want = tuple(case["want"])
+    allowed = set().union(*(FIELDS[w] for w in want))
+    w = World(cfg)
+    hist = list(case["hist"])
+    checks = []
+    for n, oi in enumerate(hist):
+        checks = []
+        w.apply(cfg.ops[oi], checks)
+    if "policy" in want:
+        w.check_policy(checks)
+    if "accounting" in want:
+        w.check_resident(checks)
+    if "coherence" in want:
+        w.check_coherence(checks)
+    if "transparency" in want:
+        w.check_readback(checks)
+    return [(dict(oracle="cache-deep-path", field=f, kind=cfg.kind), f"{cfg.name()}: step {len(hist)}: {d}") for f, d in checks if f in allowed][:1]
+
+
+def deep_configs(quick):
+    """Word-level alphabets (no crossing accesses) over small and LARGE associativities, both write policies, penalties > 0."""
+    out = []
+    geoms = [((0, 0, 2), "lru"), ((1, 1, 2), "plru"), ((0, 0, 8), "lru"), ((0, 0, 8), "plru"), ((0, 1, 16), "plru"), ((1, 0, 3), "lru"), ((2, 1, 1), "lru")]
+    if not quick:
+        geoms += [((0, 0, 16), "lru"), ((1, 0, 8), "plru"), ((0, 2, 4), "lru"), ((3, 0, 2), "plru"), ((0, 0, 32), "plru")]
+    for k, (g, policy) in enumerate(geoms):
+        for kind in ("wb", "wt"):
+            out.append(Cfg(*g, kind, policy, (3, 1, 7)[k % 3], ("word", "control", "wordz")[(k + (kind == "wt")) % 3], (False, True, 2)[k % 3], ("base", "mixed", "top")[k % 3], False))
+    return out
+
+
+def deep_paths(ctx, want):
+    from vf.engine.core import pmap
+    t0 = time.time()
+    cfgs = deep_configs(ctx.quick)
+    part = pmap(deep_shard, [(c.args(), tuple(want)) for c in cfgs])
+    part.sample(dict(kind="cache-deep-path", cfg=cfgs[0].desc(), note="pair-cover sequence of the operations"))
+    ctx.space("deep-paths", part, t0, configurations=[c.name() for c in cfgs],
+              note="one long path per configuration: every ordered pair of non-crossing operations back to back (de Bruijn sequence), all oracles after every step")
+    ctx.require("deep-path-beyond-256-hits")
+
+
 def replay(case):
+    if case.get("kind") == "cache-deep-path":
+        return replay_deep(case)
     cfg = Cfg(*case["cfg"])
     want = tuple(case["want"])
     allowed = set().union(*(FIELDS[w] for w in want))
